@@ -178,3 +178,21 @@ Example C17_psi_writer_is_source_inhabited :
   snd (gwritePSIData ex_psi) = Some (30, ENil) /\
   Ok (bytes_of_items (map snd (fst (gwritePSIData ex_psi)))) = write_psi_data ex_psi.
 Proof. split; [exact (proj1 psi_writer_runs) | exact (proj1 (proj2 psi_writer_runs))]. Qed.
+
+(* the same, at the level of Gen/MuxGen.v: generatePAT / generatePMT with their parameters writePSIData,
+   calcPMTSectionLength and calcDescriptorLength instantiated by the REGENERATED functions (src_wpsi = the regenerated
+   writePSIData through m.bufWriter: bytes of its items appended to m.buf, the count - ignored - their number, the buffer
+   left alone on an error) are, for every state, the generatePAT / generatePMT the theorems above speak about: between the
+   table generation of muxer.go and the bytes of the PAT / PMT payload nothing hand-written is left but
+   calcDescriptorUserDefinedLength / calcDescriptorExtensionLength and the float expressions of dvb.go. *)
+Require Import Proofs.PsiWriteGenMux.
+Theorem C17_tables_are_source :
+  (forall buf d, src_wpsi buf d = g_wpsi buf d) /\
+  (forall ps pm upd ver cc pb buf,
+     Muxer_generatePAT to_pat src_wpsi g_wpkt ps pm upd ver cc pb buf =
+     Muxer_generatePAT to_pat g_wpsi g_wpkt ps pm upd ver cc pb buf) /\
+  (forall ps pmt upd ver cc mb buf,
+     Muxer_generatePMT gcalcDescriptorLength gcalcPMTSectionLength src_wpsi g_wpkt ps pmt upd ver cc mb buf =
+     Muxer_generatePMT calc_descriptor_length calc_pmt_section_length g_wpsi g_wpkt ps pmt upd ver cc mb buf).
+Proof. exact mux_tables_are_source. Qed.
+Print Assumptions C17_tables_are_source.
